@@ -433,7 +433,8 @@ def r2(run, ctx):
         txt = ' '.join(norm_text(s) for s in h['body'])
         run.check('R2', astq.has_pattern(txt, "$v = [$e.strip() for $e in val.split(',', 1)]") and
                   astq.has_pattern(txt, '$v.append(False)') and
-                  astq.has_pattern(txt, '$v[1] = to_bool($v[1])') and
+                  (astq.has_pattern(txt, '$v[1] = to_bool($v[1])') or
+                   astq.has_pattern(txt, '$v = [$v[0], to_bool($v[1])]')) and
                   astq.has_pattern(txt, "watcher['hooks'][$h] = $v"),
                   'hook flag: optional, to_bool, default False', f, h['test'])
     # DefaultConfigParser.dget conversions: every value that can be returned, with the
@@ -617,7 +618,8 @@ def r3(run, ctx):
     if run.need('R3', loops, 'env:PATTERN application loop over cfg.sections()', f,
                 'env:NAME sections are not applied (or not in file order)'):
         lt = norm_text(loops[0])
-        run.check('R3', "section.split('env:', 1)[1]" in lt and ".split(',')" in lt and
+        run.check('R3', ("section.split('env:', 1)[1]" in lt or "section[4:]" in lt or
+                         "section.partition('env:')[2]" in lt) and ".split(',')" in lt and
                   's.strip()' in lt, 'the pattern list is split on commas and stripped', f, loops[0],
                   'comma-separated watcher lists in env: sections are not honoured')
         run.check('R3', astq.has_pattern(lt, "fnmatch($w['name'], pattern)"), 'patterns are matched with fnmatch '
